@@ -306,7 +306,13 @@ def c10(rec):
 
 
 # --------------------------------------------------------------------------- C12
-def c12(rec, cfg_project='00000000-0000-0000-0000-000000000000', cfg_user='00000000-0000-0000-0000-000000000000'):
+def c12(rec, cfg_project=None, cfg_user=None):
+    if cfg_project is None or cfg_user is None:
+        # the placeholders the service under test is configured with (harness/app.py sets two distinct values)
+        from harness.app import App
+        conf = App._instance.conf if App._instance is not None else None
+        cfg_project = cfg_project or (conf.placement.incomplete_consumer_project_id if conf else '00000000-0000-0000-0000-000000000000')
+        cfg_user = cfg_user or (conf.placement.incomplete_consumer_user_id if conf else '00000000-0000-0000-0000-000000000000')
     out = []
     a, b = rec.after, rec.before
     op, st = rec.op, rec.resp.status
